@@ -1087,11 +1087,16 @@ pub fn c17(ctx: &Ctx, rep: &mut Report) {
             if std::fs::write(&f, &bytes).is_err() {
                 continue;
             }
-            let run = if i % 4 < 2 {
-                super::super::cli::run(super::super::cli::Spec::new(&["disassemble", f.to_str().unwrap()]))
-            } else {
-                super::super::cli::run(super::super::cli::Spec::new(&["disassemble"]).stdin(&bytes))
+            // by file, on stdin, and by a path that is not a regular file (/dev/stdin behind a pipe, a named pipe, /proc/self/fd/0)
+            let run = match i % 6 {
+                0 | 1 => super::super::cli::run(super::super::cli::Spec::new(&["disassemble", f.to_str().unwrap()])),
+                2 => super::super::cli::run(super::super::cli::Spec::new(&["disassemble"]).stdin(&bytes)),
+                n => match super::super::cli::run_input_not_a_file((n - 3) as usize, &["disassemble"], &bytes, &[], &dir, "dis") {
+                    Some(r) => r,
+                    None => super::super::cli::run(super::super::cli::Spec::new(&["disassemble"]).stdin(&bytes)),
+                },
             };
+            rep.bump("c17-cli-input", ["file", "file", "stdin", "/dev/stdin behind a pipe", "named pipe", "/proc/self/fd/0"][(i % 6) as usize]);
             rep.evaluations += 1;
             if run.timed_out || run.spawn_error.is_some() {
                 rep.skip("cli-watchdog");
